@@ -293,6 +293,7 @@ def attempt(f):
 HEADER = """From Coq Require Import String List Arith Bool ZArith.
 Import ListNotations.
 From NP Require Import Base Values Arrow Abs Kernels ExtArray Logical Checks {extra}.
+{extra_header}
 Open Scope string_scope.
 Open Scope list_scope.
 Open Scope nat_scope.
@@ -302,7 +303,8 @@ _VERDICT = re.compile(r"\((\d+),\s*\[([^\]]*)\]\)")
 
 
 class CoqRunner:
-    def __init__(self, tag: str, extra_imports: str = ""):
+    def __init__(self, tag: str, extra_imports: str = "", extra_header: str = ""):
+        self.extra_header = extra_header
         self.dir = os.path.join(RUN_ROOT, f"{tag}-{os.getpid()}")
         shutil.rmtree(self.dir, ignore_errors=True)
         os.makedirs(self.dir)
@@ -321,7 +323,7 @@ class CoqRunner:
             part = cases[k:k + shard]
             fn = os.path.join(self.dir, f"cases_{len(files):04d}_{k}.v")
             with open(fn, "w") as fh:
-                fh.write(HEADER.format(extra=self.extra))
+                fh.write(HEADER.format(extra=self.extra, extra_header=self.extra_header))
                 for cid, term in part:
                     fh.write(f"Definition case_{cid} : nat * list bool := ({cid}, {term}).\n")
                 fh.write("Definition cases := " + cq_list(f"case_{cid}" for cid, _ in part) + ".\n")
@@ -366,7 +368,7 @@ class CoqRunner:
         while pending or running:
             while pending and len(running) < maxpar:
                 fn, n = pending.pop(0)
-                p = subprocess.Popen(["timeout", str(timeout), "coqc", "-Q", THEORIES, "NP", fn],
+                p = subprocess.Popen(["timeout", str(timeout), "coqc", "-Q", THEORIES, "NP", "-Q", os.path.join(COQ, "gen"), "NPgen", fn],
                                      stdout=subprocess.PIPE, stderr=subprocess.PIPE, text=True, cwd=self.dir)
                 running.append((p, fn, n))
             if running:
@@ -387,9 +389,9 @@ class CoqRunner:
         """evaluate one term, return the printed normal form (single line)"""
         fn = os.path.join(self.dir, f"term_{int(time.time() * 1e6)}.v")
         with open(fn, "w") as fh:
-            fh.write(HEADER.format(extra=self.extra))
+            fh.write(HEADER.format(extra=self.extra, extra_header=self.extra_header))
             fh.write(f"Eval vm_compute in ({term}).\n")
-        r = subprocess.run(["timeout", str(timeout), "coqc", "-Q", THEORIES, "NP", fn],
+        r = subprocess.run(["timeout", str(timeout), "coqc", "-Q", THEORIES, "NP", "-Q", os.path.join(COQ, "gen"), "NPgen", fn],
                            capture_output=True, text=True, cwd=self.dir)
         if r.returncode != 0:
             raise RuntimeError(f"coqc failed: {r.stderr[-2000:]}")
